@@ -310,7 +310,7 @@ class Rejector(Client):
         if k == "set":
             if not p.has_bounds():
                 return None
-            opts = ["x", True]
+            opts = ["x", True, {"cx": [1.0, 1.0]}, {"cx": [0.5, 1e-3]}]
             if p.min_bound is not None:
                 opts.append(p.min_bound - 0.5)
             if p.max_bound is not None:
